@@ -34,6 +34,12 @@ impl InputVariant {
         }
     }
 
+    /// Whether `FromMeta::from_word` may produce this variant: it carries `word` (or `word = true`)
+    /// and is not skipped. A skipped variant is never produced, whatever else it is annotated with.
+    pub(crate) fn is_word_target(&self) -> bool {
+        !self.skip.unwrap_or_default() && self.word.map(|x| *x).unwrap_or_default()
+    }
+
     /// Whether this is a tuple variant other than a newtype; `FromMeta` cannot represent those.
     pub(crate) fn is_unsupported_tuple(&self) -> bool {
         self.data.is_tuple() && !self.data.is_newtype()
